@@ -52,7 +52,7 @@ func GenTargeted(seed int64, idx int, profile string) (GCase, bool) {
 	t := &tgen{r: rand.New(rand.NewSource(seed*104729 + int64(idx)*31 + int64(len(profile)))), name: fmt.Sprintf("t%05d", idx),
 		files: map[string]string{}, feats: map[string]bool{}}
 	fams := map[string][]func(*tgen){
-		"nesting":    {famNested, famNested, famNestedConvRoot},
+		"nesting":    {famNested, famNested, famNestedConvRoot, famCandidates},
 		"notations":  {famNested, famNestedConvRoot, famCaseFlip, famRefs, famPerMethodLists},
 		"scoping":    {famPerMethodLists, famPerMethodLists, famIntfLevel},
 		"hooks":      {famSharedHooks, famSharedHooks, famHookShapes},
@@ -60,11 +60,11 @@ func GenTargeted(seed int64, idx int, profile string) (GCase, bool) {
 		"signatures": {famSignatures, famSignatures},
 		"selection":  {famSelection, famSelection},
 		"imports":    {famImports, famImports},
-		"matching":   {famMatching, famMatching, famImports},
+		"matching":   {famMatching, famCandidates, famCandidates, famImports},
 		"slices":     {famSlices, famSlices},
-		"casefold":   {famCaseFlip},
+		"casefold":   {famCaseFlip, famCandidates},
 		"simple":     {famRefs},
-		"mixed":      {famNested, famPerMethodLists, famSharedHooks, famErrors, famSignatures, famImports, famMatching, famSlices, famRefs, famCaseFlip},
+		"mixed":      {famNested, famPerMethodLists, famSharedHooks, famErrors, famSignatures, famImports, famMatching, famSlices, famRefs, famCaseFlip, famCandidates},
 		"malformed":  {famSharedHooks, famErrors},
 	}
 	fs, ok := fams[profile]
@@ -818,6 +818,67 @@ type D struct {
 	sb.WriteString("}\n")
 	t.files[t.name+"/setup.go"] = sb.String()
 	t.files[t.name+"/types.go"] = types
+}
+
+// ---- several candidates of one folded name, getters next to fields, struct pairs without content ----------------
+
+func famCandidates(t *tgen) {
+	t.feat("family:candidate-search")
+	tyPool := []string{"int", "string", "int64", "Money", "E1", "E2", "[]int", "Name"}
+	spell := [][]string{{"ID", "Id", "iD", "id"}, {"Name", "NAME", "name", "nAme"}, {"In", "IN", "in"}}
+	var ty strings.Builder
+	fmt.Fprintf(&ty, "package %s\n\ntype Money struct{ Amount int }\ntype E1 struct{}\ntype E2 struct{}\ntype Name string\n\n", t.name)
+	// source: for each base name two or three spellings with different types, in random order
+	ty.WriteString("type S struct {\n")
+	type cand struct{ name, typ string }
+	var srcFields []cand
+	for _, sp := range spell {
+		perm := t.r.Perm(len(sp))
+		k := 2 + t.r.Intn(2)
+		if k > len(sp) {
+			k = len(sp)
+		}
+		for _, i := range perm[:k] {
+			c := cand{sp[i], tyPool[t.r.Intn(len(tyPool))]}
+			srcFields = append(srcFields, c)
+			fmt.Fprintf(&ty, "\t%s %s\n", c.name, c.typ)
+		}
+	}
+	ty.WriteString("\tplain int\n}\n\n")
+	// getters whose names fold onto destination names (never equal to a field of S: Go forbids that)
+	getters := []cand{{"Ident", "int"}, {"Title", "string"}, {"Inner", "E1"}}
+	for _, g := range getters {
+		fmt.Fprintf(&ty, "func (s S) %s() %s { var z %s; return z }\n", g.name, g.typ, g.typ)
+	}
+	ty.WriteString("\ntype D struct {\n")
+	for _, sp := range spell {
+		fmt.Fprintf(&ty, "\t%s %s\n", sp[t.r.Intn(len(sp))], tyPool[t.r.Intn(len(tyPool))])
+	}
+	for _, g := range getters {
+		n := g.name
+		if t.ch(0.5) {
+			n = strings.ToLower(n[:1]) + n[1:]
+		}
+		fmt.Fprintf(&ty, "\t%s %s\n", n, t.pick(g.typ, g.typ, "E2", "string"))
+	}
+	ty.WriteString("\tplain int\n}\n")
+	var sb strings.Builder
+	sb.WriteString(header(t))
+	sb.WriteString("type Convergen interface {\n")
+	for j := 0; j < 1+t.r.Intn(3); j++ {
+		if t.ch(0.7) {
+			sb.WriteString("\t// :case:off\n")
+		}
+		for _, n := range []string{":getter", ":typecast", ":stringer", ":match none"} {
+			if t.ch(0.35) {
+				sb.WriteString("\t// " + n + "\n")
+			}
+		}
+		fmt.Fprintf(&sb, "\tTo%d(%sS) %sD\n", j, t.pick("*", ""), t.pick("*", ""))
+	}
+	sb.WriteString("}\n")
+	t.files[t.name+"/setup.go"] = sb.String()
+	t.files[t.name+"/types.go"] = ty.String()
 }
 
 // ---- slices ---------------------------------------------------------------------------------------------------
